@@ -179,6 +179,10 @@ TEMPLATES = ['I1', 'I2', 'I3', 'I4', 'I5', 'I6', 'I7']
 def call(objs, st, tmp):
     act, a = st['act'], st.get('args', {})
     f = objs[st['src'] - 1]
+    if act == 'delvar':
+        # an explicit in-place edit of the receiver (its VAR-LIST goes stale)
+        del f.variables[a['name']]
+        return None
     if act == 'interpsigma':
         return f.interpSigma(np.array(a['vglvls'], dtype='f') / 1000.,
                              interptype=a['kind'])
@@ -333,6 +337,51 @@ def tstep_selections(rnd, tier):
     return progs
 
 
+def run_ioapi_isolation(out, tier):
+    """C05 on IOAPI files: the wrappers update the metadata of the RESULT;
+    receivers - also ones whose variable list went stale after an in-place
+    edit - stay as they are."""
+    rnd = random.Random(seed() * 7919 + 55)
+    tmp = scratch('iogen')
+    progs = []
+    try:
+        for i in range(150 if tier == 'quick' else 1500):
+            progs.append(gen_program(rnd, rnd.choice([1, 2, 3]), tmp))
+    finally:
+        shutil.rmtree(tmp, ignore_errors=True)
+    names = {'I1': ['O3', 'NO2'], 'I4': ['O3', 'NO2', 'ASO4J'],
+             'I5': ['O3', 'NO2'], 'I6': ['O3', 'NO2'], 'I7': ['O3', 'NO2']}
+    for t in sorted(names):
+        for nm in names[t]:
+            keep = [k for k in names[t] if k != nm]
+            for st in (
+                {'act': 'subset', 'src': 1, 'others': [],
+                 'args': {'keys': keep[:1], 'exclude': False}},
+                {'act': 'copy', 'src': 1, 'others': [], 'args': {}},
+                {'act': 'slice', 'src': 1, 'others': [], 'args': {
+                    'sels': [{'d': 'TSTEP', 's': {'k': 'int', 'v': 0}}],
+                    'newdim': 'POINTS'}},
+                {'act': 'mask', 'src': 1, 'others': [], 'args': {
+                    'p': [{'k': 'greater', 'v': 250}],
+                    'where': {'h': False, 'shape': [], 'bits': []},
+                    'usedims': {'h': False, 'v': []}, 'coords': False}}):
+                progs.append({'templates': [t, t], 'steps': [
+                    {'act': 'delvar', 'src': 1, 'others': [],
+                     'args': {'name': nm}}, st]})
+    args = [(950000 + i, p) for i, p in enumerate(progs)]
+    res = run_cases(execute, args, timeout=120, per_child=1)
+    for a, t in zip(args, res):
+        if '_crash' in t or '_hang' in t:
+            raise Machinery('IOAPI program failed: %r\n%r' % (a[1], t))
+    out.cov['evaluations'] += sum(len(t['steps']) for t in res)
+    out.cov['ioapi_isolation_programs'] = len(res)
+    verdicts = validate_traces('Ioapi_Trace', res, out, shard=250,
+                               env={'PNC_E_C10': '0', 'PNC_E_C11': '0',
+                                    'PNC_E_C02': '0', 'PNC_E_ISO': '1'},
+                               label='C05-ioapi', timeout=1500)
+    settle(out, res, verdicts, None)
+
+
 def run_ioapi_slices(out, tier):
     """C02 part on IOAPI files (TFLAG is data too)."""
     rnd = random.Random(seed() * 7919 + 2)
@@ -346,7 +395,7 @@ def run_ioapi_slices(out, tier):
     out.cov['ioapi_time_selections'] = len(res)
     verdicts = validate_traces('Ioapi_Trace', res, out, shard=250,
                                env={'PNC_E_C10': '0', 'PNC_E_C11': '0',
-                                    'PNC_E_C02': '1'},
+                                    'PNC_E_C02': '1', 'PNC_E_ISO': '0'},
                                label='C02-ioapi', timeout=1500)
     settle(out, res, verdicts, None)
 
@@ -472,7 +521,8 @@ def run_ioapi(out, tier, prop):
                                  'others': s['others'], 'args': s['args'],
                                  'res': s['res']} for s in t['steps']]})
     env = {'PNC_E_C10': '1' if prop == 'C10' else '0',
-           'PNC_E_C11': '1' if prop == 'C11' else '0', 'PNC_E_C02': '0'}
+           'PNC_E_C11': '1' if prop == 'C11' else '0', 'PNC_E_C02': '0',
+           'PNC_E_ISO': '0'}
     verdicts = validate_traces('Ioapi_Trace', traces, out, shard=250,
                                env=env, label=prop, timeout=1500)
     settle(out, traces, verdicts, None)
